@@ -1352,6 +1352,7 @@ func c01Run(c *Ctx) {
 	if cov != total {
 		c.Error("configuration sub-product covers only %d of %d value pairs", cov, total)
 	}
+	c01Concurrent(c)
 	e := newC01Env(c)
 	defer e.close()
 	var credNames []string
@@ -1450,6 +1451,10 @@ func init() {
 			}
 		},
 		replay: func(c *Ctx, raw json.RawMessage) string {
+			var cr0 c01ConcReplay
+			if json.Unmarshal(raw, &cr0) == nil && cr0.Kind == "concurrent-requests" {
+				return c01ConcReplayOne(c, cr0)
+			}
 			var cs c01Case
 			if err := json.Unmarshal(raw, &cs); err != nil || cs.Cfg.Store == "" {
 				return "not a C01 case"
